@@ -31,6 +31,7 @@ import (
 	"github.com/nuts-foundation/nuts-node/storage"
 	"net/http"
 	"net/url"
+	"time"
 )
 
 func (r Wrapper) CreateDPoPProof(ctx context.Context, request CreateDPoPProofRequestObject) (CreateDPoPProofResponseObject, error) {
@@ -84,6 +85,11 @@ func (r Wrapper) ValidateDPoPProof(_ context.Context, request ValidateDPoPProofR
 	hash := nutsHash.SHA256Sum([]byte(request.Body.Token))
 	if ath != base64.RawURLEncoding.EncodeToString(hash.Slice()) {
 		reason := "ath/token claim mismatch"
+		return ValidateDPoPProof200JSONResponse{Reason: &reason}, nil
+	}
+	// the jti is only remembered for the duration of the access token lifetime, so an older proof can't be checked for replay
+	if time.Since(dpopToken.Token.IssuedAt()) > accessTokenValidity {
+		reason := "DPoP proof is too old"
 		return ValidateDPoPProof200JSONResponse{Reason: &reason}, nil
 	}
 	// check if the jti is already used, if not add it to the store for the duration of the access token lifetime
